@@ -8,7 +8,7 @@ import os
 import z3
 from . import types as T
 from .types import head, show
-from .interp import model, MODELS, Interp, Env, EMPTY_ENV, _mk_callee
+from .interp import model, MODELS, Interp, Env, EMPTY_ENV, _mk_callee, Program
 from .vals import *
 
 # =========================================================================================
@@ -1622,7 +1622,10 @@ def map_find(I, m, key):
 
 
 def permute(I, n):
-    """a permutation of range(n) chosen by the solver-visible choice points"""
+    """a permutation of range(n) chosen by the solver-visible choice points
+    (identity while a harness reads a map only as a set: `I.fixed_order`)"""
+    if getattr(I, 'fixed_order', False):
+        return list(range(n))
     rest = list(range(n))
     out = []
     while rest:
@@ -3215,6 +3218,90 @@ def m_de_str(I, c, de, visitor):
     if r is not None:
         raise Unsupported('visitor overrides %s (not modelled)' % meth)
     return Err(DeError('invalid type: %s' % d.kind))
+
+
+# ---- derived `Deserialize` of a unit-variant enum (C15): the derive's nested items are found in the MIR dump by name and signature
+
+
+class ModelEnumAccess(Opaque):
+    """the identifier of the variant as the deserializer holds it: ('str' | 'bytes' | 'u64', payload)"""
+    def __init__(self, kind, payload):
+        self.kind, self.payload = kind, payload
+
+
+class ModelVariantAccess(Opaque):
+    pass
+
+
+Program.STD_ASSOC[('EnumAccess', 'Variant', 'ModelEnumAccess')] = ('adt', 'ModelVariantAccess', ())
+Program.STD_ASSOC[('EnumAccess', 'Error', 'ModelEnumAccess')] = ('adt', 'DeError', ())
+Program.STD_ASSOC[('Deserializer', 'Error', 'ModelDeserializer')] = ('adt', 'DeError', ())
+
+
+def _nested_fn(I, suffix, first_param=None, ret=None):
+    """the single MIR body whose name ends with `suffix` (and whose first parameter / return type mention the given text)"""
+    c = [f for f in I.prog.fns if f.name.endswith(suffix) and (first_param is None or (f.params and first_param in f.params[0][1]))
+         and (ret is None or ret in (f.ret or ''))]
+    if len(c) != 1:
+        raise Unsupported('%d MIR bodies match %s (%s, %s)' % (len(c), suffix, first_param, ret))
+    return c[0]
+
+
+def _derive_env(extra=None):
+    from .interp import Env
+    env = {'__D': ('adt', 'ModelDeserializer', ()), '__E': ('adt', 'DeError', ()), '__A': ('adt', 'ModelEnumAccess', ())}
+    env.update(extra or {})
+    return Env(env)
+
+
+@model('Deserializer::deserialize_enum')
+def m_de_enum(I, c, de, name, variants, visitor):
+    d = deref_all(de)
+    if d.kind not in ('enum_str', 'enum_bytes', 'enum_u64'):
+        return Err(DeError('invalid type: %s, expected an enum' % d.kind))
+    # the macro-generated identifier enum is not in the source: its variants are read off the MIR
+    import re as _re
+    if '__Field' not in I.prog.enums:
+        idx = set()
+        for f in I.prog.fns:
+            if f.name.endswith('>::visit_u64') and f.params and '__FieldVisitor' in f.params[0][1]:
+                for bl in f.blocks.values():
+                    idx |= {int(x) for x in _re.findall(r'__field(\d+)', repr(bl))}
+        I.prog.enums['__Field'] = ['__field%d' % i for i in range(max(idx) + 1)] if idx else []
+    f = _nested_fn(I, '>::visit_enum', first_param='__Visitor')
+    return I.call_fn(f, [visitor, ModelEnumAccess(d.kind[5:], d.payload)], _derive_env())
+
+
+@model('EnumAccess::variant')
+def m_enum_variant(I, c, acc):
+    a = deref_all(acc)
+    f = _nested_fn(I, '>::deserialize', ret='__Field')
+    r = I.call_fn(f, [ModelDeserializer('ident_' + a.kind, a.payload)], _derive_env())
+    if r.variant == 'Err':
+        return r
+    return Ok(Tup(r.fields[0], ModelVariantAccess()))
+
+
+@model('Deserializer::deserialize_identifier')
+def m_de_identifier(I, c, de, visitor):
+    d = deref_all(de)
+    if d.kind == 'ident_str':
+        return I.call_fn(_nested_fn(I, '>::visit_str', first_param='__FieldVisitor'), [visitor, RStr(d.payload)], _derive_env())
+    if d.kind == 'ident_bytes':
+        return I.call_fn(_nested_fn(I, '>::visit_bytes', first_param='__FieldVisitor'), [visitor, VecVal(list(d.payload))], _derive_env())
+    if d.kind == 'ident_u64':
+        return I.call_fn(_nested_fn(I, '>::visit_u64', first_param='__FieldVisitor'), [visitor, d.payload], _derive_env())
+    raise Unsupported('identifier of kind ' + d.kind)
+
+
+@model('VariantAccess::unit_variant')
+def m_unit_variant(I, c, v):
+    return Ok(UNIT())
+
+
+@model('Error::unknown_variant', 'Error::invalid_value', 'Error::unknown_variant@DeError', 'Error::invalid_value@DeError')
+def m_de_error_other(I, c, *a):
+    return DeError(c.method)
 
 
 @model('Error::custom@DeError', 'Error::custom')
